@@ -6,6 +6,7 @@ package main
 import (
 	"fmt"
 	"go/ast"
+	"os"
 	"go/token"
 	"go/types"
 	"math/big"
@@ -74,6 +75,9 @@ func (e *Engine) execCall(st *State, fr *Frame, in *ssa.Call, b, prev *ssa.Basic
 			}
 			f2.vals[in] = o.result
 			if o.st.infeasible() {
+				if os.Getenv("VCGO_TRACE") != "" {
+					fmt.Fprintf(os.Stderr, "[trace] %s: outcome %d/%d of %s dropped (infeasible)\n", e.curFunc, i+1, len(outs), in.String())
+				}
 				continue
 			}
 			all = append(all, e.execFrom(o.st, f2, b, prev, idx+1)...)
@@ -406,12 +410,18 @@ func (e *Engine) applyContract(st *State, fr *Frame, fn *ssa.Function, c *Contra
 		}
 		work = next
 	}
-	for _, w := range work {
+	alive := 0
+	for wi, w := range work {
 		s := w.st
 		res := e.applyPost(s, pre, fr, fn, c, args, site, w.force...)
 		if s.infeasible() && len(w.force) > 0 {
+			// one result case excluded by the postcondition is fine; all of them excluded is a contract error
+			if wi == len(work)-1 && alive == 0 {
+				e.errors = append(e.errors, fmt.Sprintf("%s: postcondition of %s excludes every result case at this call site (contract error)", e.curFunc, rel))
+			}
 			continue
 		}
+		alive++
 		if s.infeasible() {
 			// vacuity guard: a callee postcondition that is syntactically contradictory in a feasible state
 			e.errors = append(e.errors, fmt.Sprintf("%s: postcondition of %s is contradictory at this call site (contract error)", e.curFunc, rel))
@@ -511,7 +521,11 @@ func (e *Engine) applyPost(st, pre *State, fr *Frame, fn *ssa.Function, c *Contr
 	}
 	for _, x := range conj {
 		if !isResDef(x) {
+			was := st.infeasible()
 			e.assumeEnsures(st, env, x, results, names)
+			if !was && st.infeasible() && os.Getenv("VCGO_TRACE") != "" {
+				fmt.Fprintf(os.Stderr, "[trace] %s: call of %s: outcome becomes infeasible at: %s\n", e.curFunc, rel, exprString(x))
+			}
 		}
 	}
 	// type invariants of havoced objects and fresh results
@@ -570,6 +584,20 @@ func (e *Engine) applyPost(st, pre *State, fr *Frame, fn *ssa.Function, c *Contr
 				continue
 			}
 			st.assume(inv.t)
+		}
+	}
+	// a pointer / slice result must be declared fresh or be defined by an `ensures resultK == ...` that
+	// applies in this outcome; otherwise callers would be told it is nil without the callee being checked
+	if !st.infeasible() {
+		for i := 0; i < rs.Len(); i++ {
+			nm := fmt.Sprintf("result%d", i)
+			isFresh := freshSet[nm] || (i == 0 && freshSet["result"]) || (names[i] != "" && freshSet[names[i]])
+			switch underlying(rs.At(i).Type()).(type) {
+			case *types.Pointer, *types.Slice:
+				if !isFresh && !env.resultDefined[i] {
+					e.fail("contract of %s: result %d is neither declared fresh nor defined by an ensures clause that applies at this call", rel, i)
+				}
+			}
 		}
 	}
 	for i, r := range env.results {
@@ -744,6 +772,10 @@ func (e *Engine) assumeEnsures(st *State, env *SpecEnv, x ast.Expr, results []Va
 							v = env.loadRef(rv)
 						}
 						results[ri] = v
+						if env.resultDefined == nil {
+							env.resultDefined = map[int]bool{}
+						}
+						env.resultDefined[ri] = true
 						env.results = results
 						return
 					case *IfaceVal:
@@ -819,6 +851,10 @@ func (e *Engine) assumeEnsures(st *State, env *SpecEnv, x ast.Expr, results []Va
 				if ri := resultIndex(id.Name, names); ri >= 0 {
 					if iv, ok := results[ri].(*IfaceVal); ok {
 						if p, ok := env.eval(n.Y).(*PtrVal); ok && p.null {
+							if iv.null.IsConst() && iv.null.Val.Sign() != 0 {
+								st.assume(tFalse) // this outcome has a nil result: the case is impossible
+								return
+							}
 							results[ri] = &IfaceVal{null: tFalse, tagT: iv.tagT, tag: iv.tag, obj: iv.obj}
 							env.results = results
 							return
@@ -832,6 +868,9 @@ func (e *Engine) assumeEnsures(st *State, env *SpecEnv, x ast.Expr, results []Va
 			switch id.Name {
 			case "implies":
 				g := st.sub(env.boolTerm(n.Args[0]))
+				if os.Getenv("VCGO_TRACE") == "2" {
+					fmt.Fprintf(os.Stderr, "[trace] implies cond=%s knownTrue=%v knownFalse=%v :: %s\n", trunc(pretty(g, 5), 300), knownTrue(st, g), knownFalse(st, g), trunc(exprString(n), 120))
+				}
 				if knownTrue(st, g) {
 					e.assumeEnsures(st, env, n.Args[1], results, names)
 					return
@@ -900,6 +939,9 @@ func (e *Engine) assumeEnsures(st *State, env *SpecEnv, x ast.Expr, results []Va
 		}
 	}
 	t := env.boolTerm(x)
+	if os.Getenv("VCGO_TRACE") == "2" {
+		fmt.Fprintf(os.Stderr, "[trace] assume %s\n", trunc(pretty(st.sub(t), 4), 400))
+	}
 	if t.Op == "var" && definable(t) {
 		st.addSubst(t, tTrue)
 		return
@@ -1099,6 +1141,11 @@ func (e *Engine) invariantsOfValue(st *State, v Value, t types.Type, label strin
 			return nil
 		}
 		return e.invariantsAt(st, p.reg, p.path, subType(p.reg.typ, p.path), label)
+	case *IfaceVal:
+		// an interface value of known dynamic type: the invariants of the object inside
+		if p.dyn != nil && p.val != nil {
+			return e.invariantsOfValue(st, p.val, p.dyn, label)
+		}
 	}
 	return nil
 }
@@ -1288,7 +1335,7 @@ func (e *Engine) checkCutsAt(st *State, fr *Frame, atReturn bool) {
 			break
 		}
 		if !ready {
-			if a.Kind == "assert" || a.Kind == "apply" || a.Kind == "fork" {
+			if a.Kind == "assert" || a.Kind == "apply" || a.Kind == "fork" || a.Kind == "reach" {
 				continue
 			}
 			// cuts are ordered
@@ -1301,6 +1348,15 @@ func (e *Engine) checkCutsAt(st *State, fr *Frame, atReturn bool) {
 			for _, h := range e.instantiateLemma(env, a) {
 				st.assume(h)
 			}
+			continue
+		}
+		if a.Kind == "reach" {
+			// vacuity guard placed by the contract: this point is reachable (path condition satisfiable);
+			// the expression is an additional condition that must be satisfiable there (usually `true`)
+			c := st.sub(env.boolTerm(a.Expr))
+			s2 := st.fork()
+			s2.assume(c)
+			e.addCover(s2, "reach:"+a.Name)
 			continue
 		}
 		if a.Kind == "fork" {
